@@ -162,6 +162,9 @@ fn run_program(bytes: &[u8], ops: &[Op], threads: usize, force_wide: bool, use_r
     }
     let mut write_budget = 32usize << 20;
     for op in ops {
+        if std::env::var_os("VERIF_DEBUG").is_some() {
+            eprintln!("C01 op {op:?}");
+        }
         match op {
             Op::Feed(n) => {
                 if dead || use_read {
